@@ -704,6 +704,9 @@ fn infer_generic_members_from_super_generics(
     }
 }
 
+/// nested guard levels after which a generic alias is no longer unfolded for a member lookup
+const MAX_GENERIC_ALIAS_UNFOLD_LEVEL: usize = 32;
+
 fn infer_generic_member(
     db: &DbIndex,
     cache: &mut LuaInferCache,
@@ -720,9 +723,21 @@ fn infer_generic_member(
         let type_index = db.get_type_index();
         if let Some(type_decl) = type_index.get_type_decl(base_type_decl_id)
             && type_decl.is_alias()
-            && let Some(origin_type) = type_decl.get_alias_origin(db, Some(&substitutor))
         {
-            return infer_member_by_lookup(db, cache, &origin_type, lookup, &infer_guard.fork());
+            // `---@alias GA<T> GA<T[]>|nil`: every unfolding yields a new, larger instance, so the
+            // visited set of the guard never sees the same type twice; bound the unfolding depth.
+            if infer_guard.level() >= MAX_GENERIC_ALIAS_UNFOLD_LEVEL {
+                return Err(InferFailReason::RecursiveInfer);
+            }
+            if let Some(origin_type) = type_decl.get_alias_origin(db, Some(&substitutor)) {
+                return infer_member_by_lookup(
+                    db,
+                    cache,
+                    &origin_type,
+                    lookup,
+                    &infer_guard.fork(),
+                );
+            }
         }
 
         let result = infer_generic_members_from_super_generics(
@@ -1011,6 +1026,10 @@ fn infer_member_by_index_generic(
         .get_type_decl(&type_decl_id)
         .ok_or(InferFailReason::None)?;
     if type_decl.is_alias() {
+        // see `infer_generic_member`: a recursive generic alias is unfolded a bounded number of times
+        if infer_guard.level() >= MAX_GENERIC_ALIAS_UNFOLD_LEVEL {
+            return Err(InferFailReason::RecursiveInfer);
+        }
         if let Some(origin_type) = type_decl.get_alias_origin(db, Some(&substitutor)) {
             return infer_member_by_operator_key_type(
                 db,
